@@ -133,6 +133,9 @@ Definition op_lt (t : ity) (a b : Z) : outcome := ret I8 (c_lt (t, a) (t, b)).
 Definition op_le (t : ity) (a b : Z) : outcome := ret I8 (c_le (t, a) (t, b)).
 Definition op_eq (t : ity) (a b : Z) : outcome := ret I8 (c_eq (t, a) (t, b)).
 Definition op_ne (t : ity) (a b : Z) : outcome := ret I8 (c_ne (t, a) (t, b)).
+(* (since /repo 1d3f0fa operator_binary_op and unary - ~ emit `(T)(a op b)` / `((T)-a)` when T is narrower than C
+   int: the explicit cast is the conversion [ret t] already applies to the promoted result, so the modelled values
+   are unchanged - confirmed by the helpers stream on int8/int16/uint8/uint16) *)
 (* plain `/` and `%` chosen when neither operand can be negative *)
 Definition op_cdiv (t : ity) (a b : Z) : outcome := ret t (c_div (t, a) (t, b)).
 Definition op_crem (t : ity) (a b : Z) : outcome := ret t (c_rem (t, a) (t, b)).
